@@ -29,8 +29,10 @@ static C13: checks::c13::C13 = checks::c13::C13;
 
 static C14: checks::c14::C14 = checks::c14::C14;
 
+static C20: checks::c20::C20 = checks::c20::C20;
+
 fn registry() -> Vec<&'static dyn DynCheck> {
-    vec![&C01, &C02, &C03, &C04, &C06, &C08, &C09, &C10, &C11, &C12, &C13, &C14]
+    vec![&C01, &C02, &C03, &C04, &C06, &C08, &C09, &C10, &C11, &C12, &C13, &C14, &C20]
 }
 
 fn find(id: &str) -> &'static dyn DynCheck {
